@@ -23,7 +23,7 @@ type Profile struct {
 	Tag          string // made part of every generated string so values are attributable
 }
 
-var words = []string{"alpha", "beta", "gamma", "delta", "lib", "core", "util", "ß-ünï", "名前", "x:y", "a+b", "(p)", "n(q)o", "sp ace", ""}
+var words = []string{"Alpha", "BETA", "MixedCase@Example.COM", "alpha", "beta", "gamma", "delta", "lib", "core", "util", "ß-ünï", "名前", "x:y", "a+b", "(p)", "n(q)o", "sp ace", ""}
 var safeWords = []string{"alpha", "beta", "gamma", "delta", "lib", "core", "util", "zeta", "eta", "theta"}
 
 type G struct {
